@@ -112,8 +112,11 @@ Definition custom_wide_rev_ctx (fl : rflags) (h : hir) (mem : list N) (lo e : N)
   let '(i0, u) := wide_run_rev (S (length mem)) mem lo e [] in
   let prev := if (2 <=? i0) && is_nul_at mem (i0 - 1)
               then match byte_at mem (i0 - 2) with Some b => [b] | None => [] end else [] in
+  (* the wide character that follows the end of the walk (the runner's start state ignores it too:
+     `get_unwidened_end` builds an input whose span covers it) *)
+  let next := if is_nul_at mem (e + 1) then match byte_at mem e with Some b => [b] | None => [] end else [] in
   let base := nlen prev in
-  match rev_min_start fl (prev ++ u) h base (nlen (prev ++ u)) with
+  match rev_min_start fl (prev ++ u ++ next) h base (base + nlen u) with
   | Some s => Some (i0 + 2 * (s - base))
   | None => None
   end.
@@ -136,21 +139,25 @@ Definition process_ctx (d : sdesc) (mem : list N) (ms me sp : N) (mt : mtype) : 
   | _, _ => process_ac_match d mem ms me sp mt
   end.
 
-Definition ac_scan_ctx (d : sdesc) (mem : list N) (max_nb : N) : list (N * N) :=
+Definition ac_scan_ctx (use_sp : bool) (d : sdesc) (mem : list N) (max_nb : N) : list (N * N) :=
   fold_left (fun acc (h : N * N * N * mtype) =>
                let '(_, ms, me, mt) := h in
-               let sp := match last_offset acc with Some o => o + 1 | None => 0 end in
+               let sp := if use_sp then match last_offset acc with Some o => o + 1 | None => 0 end else 0 in
                let acc' := fold_left (fun a se => insert_match a (fst se, snd se - fst se))
                                      (process_ctx d mem ms me sp mt) acc in
                if max_nb <? nlen acc' then firstn (N.to_nat max_nb) acc' else acc')
             (hits d mem) [].
 
+(* with or without the start_position mechanism (the two open findings can combine: a start the context-aware
+   runner would find can in addition be hidden by start_position) *)
 Definition kf_wide_rev_context (d : sdesc) (mem : list N) : bool :=
   match s_pre d with
   | Some pre =>
       m_wide (s_mods d) && has_word_boundary pre
-      && negb (list_eqb N.eqb (map fst (ac_scan_ctx d mem default_max_nb))
-                        (map fst (ac_scan true d mem default_max_nb)))
+      && (negb (list_eqb N.eqb (map fst (ac_scan_ctx true d mem default_max_nb))
+                         (map fst (ac_scan true d mem default_max_nb)))
+          || negb (list_eqb N.eqb (map fst (ac_scan_ctx false d mem default_max_nb))
+                            (map fst (ac_scan false d mem default_max_nb))))
   | None => false
   end.
 
